@@ -21,7 +21,7 @@ LEVEL_TEXT = (
     "whole, bytewise, with every single cut (wires <= 64 octets), with seeded multi-cuts and boundary-adversarial cuts, and all runs must "
     "return identical frame signatures. Thorough adds a bounded enumeration over a 4-symbol alphabet as a supplement. Sampling, not proof."
 )
-RUNS = {"quick": 80000, "thorough": 400000}
+RUNS = {"quick": 80000, "thorough": 2000000}
 CHUNK = {"quick": 150, "thorough": 1000}
 BUDGET_S = {"quick": 90, "thorough": 1500}
 RULE = (
